@@ -389,6 +389,17 @@ def run_check(pid, tier, seed):
             known_hits.setdefault(k["id"], (k, 0))
             known_hits[k["id"]] = (k, known_hits[k["id"]][1] + 1)
             continue
+        if "without reaching a scheduling point" in msg or msg == "process crashed":
+            # the watchdog is a wall-clock limit: on a loaded machine a step can simply be slow. Believe it only
+            # if the execution, replayed alone, does it again
+            prog, es, sched = extract_replay(binp, fam, idx, seed)
+            tmpf = os.path.join(VERIF, "replays", ".wd-%s-%d-%d.json" % (pid, seed, idx))
+            json.dump({"property": pid, "family": fam, "index": idx, "seed": es, "program": prog, "schedule": sched}, open(tmpf, "w"))
+            again, _ = replay_file(binp, tmpf, [pid], mem=bool(cfg.get("mem")))
+            os.remove(tmpf)
+            if not [l for l in again if l.startswith("V ") and (" %s " % pid) in l]:
+                notes.append("watchdog fired in %s #%d but the execution replayed alone shows no violation: machine load, ignored" % (fam, idx))
+                continue
         sig = re.sub(r"\d+", "N", msg)
         if sig in seen_sig and len(violations) >= 3:
             continue
